@@ -80,12 +80,34 @@ def asTicksPerMinute : ClockSpeed α → α
   | secondsPerTick v => (60.0 : α) / v
   | ticksPerSecond v => v * (60.0 : α)
   | ticksPerMinute v => v
-/-- mirrors: clock_speed.rs `impl Tweenable for ClockSpeed` -/
-def lerp (a b : ClockSpeed α) (t : α) : ClockSpeed α :=
+/-- the number a speed holds, in its own unit -/
+def raw : ClockSpeed α → α
+  | secondsPerTick v => v
+  | ticksPerSecond v => v
+  | ticksPerMinute v => v
+/-- the interpolation in the unit of the target speed (all of `impl Tweenable for ClockSpeed` until the
+    repair; over ℝ it still is: `lerp_real`) -/
+def lerpInTargetUnit (a b : ClockSpeed α) (t : α) : ClockSpeed α :=
   match b with
   | secondsPerTick bv => secondsPerTick (lerp64 a.asSecondsPerTick bv t)
   | ticksPerSecond bv => ticksPerSecond (lerp64 a.asTicksPerSecond bv t)
   | ticksPerMinute bv => ticksPerMinute (lerp64 a.asTicksPerMinute bv t)
+/-- the interpolation in the unit of the starting speed (the second `match` of `impl Tweenable for ClockSpeed`) -/
+def lerpInStartUnit (a b : ClockSpeed α) (t : α) : ClockSpeed α :=
+  match a with
+  | secondsPerTick av => secondsPerTick (lerp64 av b.asSecondsPerTick t)
+  | ticksPerSecond av => ticksPerSecond (lerp64 av b.asTicksPerSecond t)
+  | ticksPerMinute av => ticksPerMinute (lerp64 av b.asTicksPerMinute t)
+/-- mirrors: clock_speed.rs `impl Tweenable for ClockSpeed`: in the unit of the target speed; when that
+    value is not finite (the starting speed is infinite in the target's unit — 0 ticks per second is
+    infinitely many seconds per tick —, `inf + (b − inf)·t` is NaN) in the unit of the starting speed; and
+    the starting speed itself if that is NaN (an infinite difference times an amount of 0) -/
+def lerp (a b : ClockSpeed α) (t : α) : ClockSpeed α :=
+  let inTargetUnit := lerpInTargetUnit a b t
+  if KOps.isFinite inTargetUnit.raw then inTargetUnit
+  else
+    let inStartUnit := lerpInStartUnit a b t
+    if KOps.isNaN inStartUnit.raw then a else inStartUnit
 end ClockSpeed
 
 end K
